@@ -10,8 +10,9 @@ def gen(rng, tier):
     cases = []
     N = 300 if tier == "quick" else 6000
     for _ in range(N):
-        G, fam = common.random_connected_graph(rng, 1, 6 if tier == "quick" else 8)
+        G, fam = common.random_connected_graph(rng, 1, 6 if tier == "quick" else 8, large_ok=True)
         n = G["n"]; D = common.random_divisor(rng, G)
+        if rng.random() < 0.08 and G["edges"]: G, D = common.scale_game(rng, G, D); fam = fam + "*2^k"
         sigma = [rng.randint(-3, 3) if rng.random() < 0.7 else rng.randint(-40, 40) for _ in range(n)]
         cases.append({"G": G, "D": D, "sigma": sigma, "q": rng.randrange(n), "fam": fam, "s": rng.randrange(1 << 30)})
     if tier == "thorough":
